@@ -545,6 +545,17 @@ impl Model {
             },
 
             Cmd::Store { kind, value, flags, ttl, .. } => {
+                // an acknowledged store must have stored exactly what was sent
+                if success {
+                    let stored_ok = matches!(after_e, Some(d) if d.value == *value && d.flags == *flags && d.expiry() == t_inf(now, *ttl));
+                    if !stored_ok {
+                        let clause = if *kind == StoreKind::Set { "stored-exactly" } else { "conditional-store-effect" };
+                        ev.viol.push(v(
+                            clause,
+                            format!("{} was acknowledged but the store holds {:?} (sent value {} flags {:#x} ttl {})", name, after_e, wire::show(value), flags, ttl),
+                        ));
+                    }
+                }
                 let mk_item = |t: u64, carried: BTreeSet<u64>, exempt: bool| -> Item {
                     let mut c2 = carried;
                     c2.insert(t);
